@@ -75,12 +75,17 @@ func (ci *ContractInvocation) EncodeBinaryWithContext(w *io.BinWriter, sc *stack
 // MarshalJSON implements the json.Marshaler interface.
 func (ci ContractInvocation) MarshalJSON() ([]byte, error) {
 	var item []byte
-	if ci.Arguments == nil && ci.argumentsBytes != nil {
+	args := ci.Arguments
+	if args == nil && ci.argumentsBytes != nil {
 		si, err := stackitem.Deserialize(ci.argumentsBytes)
 		if err != nil {
 			return nil, err
 		}
-		item, err = stackitem.ToJSONWithTypes(si.(*stackitem.Array))
+		args = si.(*stackitem.Array)
+	}
+	if args != nil {
+		var err error
+		item, err = stackitem.ToJSONWithTypes(args)
 		if err != nil {
 			item = nil
 		}
@@ -100,7 +105,10 @@ func (ci *ContractInvocation) UnmarshalJSON(data []byte) error {
 	if err := json.Unmarshal(data, aux); err != nil {
 		return err
 	}
-	var args *stackitem.Array
+	var (
+		args     *stackitem.Array
+		argBytes []byte
+	)
 	if aux.Arguments != nil {
 		arguments, err := stackitem.FromJSONWithTypes(aux.Arguments)
 		if err != nil {
@@ -110,11 +118,18 @@ func (ci *ContractInvocation) UnmarshalJSON(data []byte) error {
 			return fmt.Errorf("failed to convert invocation state of type %s to array", t.String())
 		}
 		args = arguments.(*stackitem.Array)
+		// Keep the interop-level representation in sync, it's the one
+		// used by the binary encoder.
+		argBytes, err = stackitem.Serialize(args)
+		if err != nil {
+			return err
+		}
 	}
 	ci.Method = aux.Method
 	ci.Hash = aux.Hash
 	ci.ArgumentsCount = aux.ArgumentsCount
 	ci.Truncated = aux.Truncated
 	ci.Arguments = args
+	ci.argumentsBytes = argBytes
 	return nil
 }
